@@ -5,7 +5,7 @@ from .. import hirx as H
 from ..flow import ExprBuilder, mentions_field, mentions_call, is_call, is_field, walk, show, cond_switches, \
     guarded, seed_after_call, Sccp, I, V, X, strip, value_set
 from ..graph import field_rw, field_rw_deep, enum_table, discr_switches
-from ..facts import op_const, op_place, fields_of_place
+from ..facts import op_const, op_place, fields_of_place, place_key
 from .. import wire as W
 
 TITLE = "filter precedence"
@@ -357,28 +357,36 @@ def top_rule(ctx, r):
         r.ok("order", "overrides → ignore rules → file types", fn=f)
     else:
         r.bad("order", "Ignore::matched does not consult overrides, then ignore rules, then types in that order", fn=f)
-    # a non-None override result is returned immediately
-    isn = [c for c in f.calls_to(MATCH + "::is_none") if mentions_call(eb.operand(c.args[0]), "ignore::overrides::Override::matched")]
-    if len(isn) != 1:
-        r.bad("override", "anchor-missing: the override result is not tested with is_none()", fn=f)
+    # Value table over the verdicts of the three stages (None / Ignore / Whitelist, the Match methods evaluated in place):
+    # a verdict of the override stage decides at once; an ignore verdict of a later stage is returned at once. Whether the
+    # function tests with is_none()/is_ignore() or matches on the enum does not matter.
+    from ..flow import table
+    OVM, MIM, TYM = "overrides::Override::matched", "dir::Ignore::matched_ignore", "types::Types::matched"
+    verdicts = [V("None", None), V("Ignore", None), V("Whitelist", None)]
+    bad_ov = []
+    from ..flow import combinator_model
+    mm = combinator_model(facts, lambda c_, a_: None, callees=lambda p_: p_.startswith(MATCH + "::"))
+    for verdict in ("Ignore", "Whitelist"):
+        s_ = Sccp(f, call_model=mm)
+        env_ = {}
+        Sccp._write(env_, place_key(ov[0].dest), V(verdict, None))
+        s_ = s_.run([(ov[0].target, env_)])
+        later = [c for c in mi + ty if c.bb in s_.exec_blocks]
+        if later or not s_.ret_values:
+            bad_ov.append((verdict, later[0].path if later else "no return"))
+    if bad_ov:
+        r.bad("override", "a matching -g/override glob does not decide immediately (%s still consulted after %s)"
+              % (bad_ov[0][1], bad_ov[0][0]), fn=f, loc=ov[0].loc)
     else:
-        s = seed_after_call(f, isn[0], I(0))
-        later = [c for c in mi + ty if c.bb in s.exec_blocks]
-        if later or not s.ret_values:
-            r.bad("override", "a matching -g/override glob does not decide immediately (%s still consulted)"
-                  % (later[0].path if later else "no return"), fn=f, loc=isn[0].loc)
-        else:
-            r.ok("override", "override match ⇒ returned, nothing else consulted", fn=f)
-    # an is_ignore result of matched_ignore / types is returned
+        r.ok("override", "override match ⇒ returned, nothing else consulted", fn=f)
     for lbl, site, others in (("ignore", mi[0], ty), ("types", ty[0], [])):
-        isi = [c for c in f.calls_to(MATCH + "::is_ignore") if mentions_call(eb.operand(c.args[0]), site.path)]
-        if len(isi) != 1:
-            r.bad(lbl, "anchor-missing: result of %s not tested with is_ignore()" % site.path, fn=f)
-            continue
-        s = seed_after_call(f, isi[0], I(1))
-        later = [c for c in others if c.bb in s.exec_blocks]
-        if later or not s.ret_values:
-            r.bad(lbl, "an ignore verdict of %s is not returned immediately" % site.path.split("::")[-1], fn=f, loc=isi[0].loc)
+        s_ = Sccp(f, call_model=mm)
+        env_ = {}
+        Sccp._write(env_, place_key(site.dest), V("Ignore", None))
+        s_ = s_.run([(site.target, env_)])
+        later = [c for c in others if c.bb in s_.exec_blocks]
+        if later or not s_.ret_values:
+            r.bad(lbl, "an ignore verdict of %s is not returned immediately" % site.path.split("::")[-1], fn=f, loc=site.loc)
         else:
             r.ok(lbl, "ignore verdict ⇒ returned", fn=f)
     # the three stages are consulted exactly when they hold rules
@@ -406,24 +414,23 @@ def top_rule(ctx, r):
     g = facts.fn(D + "::Ignore::matched_dir_entry")
     ebg = ExprBuilder(g)
     hid = g.calls_to(D + "::IgnoreMatch::hidden")
-    sw_none = cond_switches(g, lambda e: is_call(e, MATCH + "::is_none"), ebg)
-    sw_opt = cond_switches(g, lambda e: mentions_field(e, OPTS, "hidden"), ebg)
-    sw_hid = cond_switches(g, lambda e: is_call(e, "ignore::pathutil::is_hidden"), ebg)
     if not hid:
         r.bad("hidden", "anchor-missing: matched_dir_entry never produces IgnoreMatch::hidden()", fn=g)
     else:
-        bad = []
-        if not sw_none or guarded(g, [hid[0].bb], sw_none, True):
-            bad.append("m.is_none()")
-        if not sw_opt or guarded(g, [hid[0].bb], sw_opt, True):
-            bad.append("opts.hidden")
-        if not sw_hid or guarded(g, [hid[0].bb], sw_hid, True):
-            bad.append("is_hidden(dent)")
-        if bad:
-            r.bad("hidden", "the hidden-file verdict is not guarded by %s (a whitelisted or ignored entry could be "
-                  "overridden by the hidden rule)" % ", ".join(bad), fn=g, loc=hid[0].loc)
+        # value table: verdict of Ignore::matched ∈ {None, Ignore, Whitelist}, opts.hidden ∈ {0,1}, is_hidden(dent) ∈ {0,1}
+        wrong = []
+        for row, sx in table(facts, g, calls={"dir::Ignore::matched": verdicts, "pathutil::is_hidden": [I(0), I(1)]},
+                             fields={(OPTS, "hidden"): [I(0), I(1)]}, callees=lambda p_: p_.startswith(MATCH + "::")):
+            v_, oh, ih = row[("call", "dir::Ignore::matched")][1], row[("field", (OPTS, "hidden"))][1], row[("call", "pathutil::is_hidden")][1]
+            want = v_ == "None" and oh == 1 and ih == 1
+            ran = any(c.bb in sx.exec_blocks for c in hid)
+            if ran != want:
+                wrong.append("verdict=%s opts.hidden=%d is_hidden=%d ⇒ hidden() %s" % (v_, oh, ih, "produced" if ran else "not produced"))
+        if wrong:
+            r.bad("hidden", "the hidden-file verdict is not produced exactly under m.is_none() ∧ opts.hidden ∧ is_hidden(dent) (%s): a "
+                  "whitelisted or ignored entry could be overridden by the hidden rule" % wrong[0], fn=g, loc=hid[0].loc)
         else:
-            r.ok("hidden", "hidden ⇐ m.is_none() ∧ opts.hidden ∧ is_hidden", fn=g)
+            r.ok("hidden", "hidden ⇔ m.is_none() ∧ opts.hidden ∧ is_hidden (12 rows)", fn=g)
     # Override::matched
     o = facts.fn("ignore::overrides::Override::matched")
     ebo = ExprBuilder(o)
